@@ -150,8 +150,8 @@ theorem close_idempotent (c : Cfg) (s : St) (hc : s.closed = true) : step c s .c
 
 /-! ### invariant: the run loop is always at a blocking point, and waits only for a pending call -/
 
-/-- Every state reachable from the initial one, by ANY sequence of API calls and server events, is
-idle / closed (empty stack) or inside waitResponse on behalf of the API call being served.  In
+/-- Every state reachable from the initial one, by ANY sequence of API calls, server events and timer
+events, is idle / closed (empty stack) or inside waitResponse (`wait` on top of the stack).  In
 particular `step`'s catch-all branch (an event nobody consumes, not even the timer) is unreachable:
 there is no waiting state without an enabled timer. -/
 theorem reachable_inv (c : Cfg) (es : List Ev) : Inv (run c init es) :=
@@ -160,16 +160,30 @@ theorem reachable_inv (c : Cfg) (es : List Ev) : Inv (run c init es) :=
 theorem reachable_waiting_has_timer (c : Cfg) (es : List Ev) :
     let s := run c init es
     s.closed = true ∨ s.stack = [] ∨
-      ∃ m n tp k a, s.stack = .wait m n tp :: k ∧ s.pending = some a ∧
+      ∃ m n tp k, s.stack = .wait m n tp :: k ∧
         step c s .timer = resume c k { s with mustClose := true } (.err .timeout) := by
   intro s
   by_cases hc : s.closed = true
   · exact Or.inl hc
   · right
     have hc' : s.closed = false := by simpa using hc
-    rcases reachable_inv c es with h | ⟨⟨m, n, tp, k, hs⟩, a, ha⟩
+    rcases reachable_inv c es with h | ⟨m, n, tp, k, hs⟩
     · exact Or.inl h
-    · exact Or.inr ⟨m, n, tp, k, a, hs, ha, wait_has_timer c s m n tp k hc' hs⟩
+    · exact Or.inr ⟨m, n, tp, k, hs, wait_has_timer c s m n tp k hc' hs⟩
+
+/-- An API call that has been accepted is served on its own behalf, and stays the pending call until
+it returns: whatever event arrives while the loop waits for it, afterwards the loop is idle / closed
+or still waiting with the same call pending. -/
+theorem pending_call_is_kept (c : Cfg) (s : St) (e : Ev) (m : Meth) (n tp : Nat) (k : List Fr) (a : Api)
+    (hc : s.closed = false) (hs : s.stack = .wait m n tp :: k) (hp : s.pending = some a) :
+    (step c s e).stack = [] ∨
+      ((∃ m' n' tp' k', (step c s e).stack = .wait m' n' tp' :: k') ∧ (step c s e).pending = some a) :=
+  step_keeps_pending c s e m n tp k a hc hs hp
+
+theorem accepted_call_is_pending (c : Cfg) (s : St) (a : Api) (hc : s.closed = false) (hs : s.stack = []) :
+    (step c s (.call a)).stack = [] ∨
+      ((∃ m n tp k, (step c s (.call a)).stack = .wait m n tp :: k) ∧ (step c s (.call a)).pending = some a) :=
+  call_accepted c s a hc hs
 
 /-! ### every_call_returns, part 2: the timer (and every other failure of the wait) returns the call -/
 
@@ -234,7 +248,7 @@ theorem close_reaches_closed (c : Cfg) (s : St) (h : Inv s) : (step c s .close).
   cases hc : s.closed with
   | true => simp [step, hc]
   | false =>
-    rcases h with h | ⟨⟨m, n, tp, k, hs⟩, _⟩
+    rcases h with h | ⟨m, n, tp, k, hs⟩
     · rw [close_idle c s hc h]; exact (runExit_closed _ _).1
     · have : step c s .close = resume c k { s with ctxDone := true, mustClose := true } (.err .terminated) := by
         simp [step, hc, hs, waitFail]
@@ -244,7 +258,7 @@ theorem close_reaches_closed (c : Cfg) (s : St) (h : Inv s) : (step c s .close).
 /-- … and the error latched by a Close of a running client is an error (never nil) -/
 theorem close_reports_error (c : Cfg) (s : St) (h : Inv s) (hc : s.closed = false) :
     (step c s .close).closeRes ≠ none := by
-  rcases h with h | ⟨⟨m, n, tp, k, hs⟩, _⟩
+  rcases h with h | ⟨m, n, tp, k, hs⟩
   · rw [close_idle c s hc h, (runExit_closed _ _).2.1]; simp
   · have : step c s .close = resume c k { s with ctxDone := true, mustClose := true } (.err .terminated) := by
       simp [step, hc, hs, waitFail]
@@ -355,5 +369,40 @@ theorem frame_in_play_is_consumed (c : Cfg) (s : St) (ch : Nat) (hb : Blocked s)
   split
   · rfl
   · rcases hb with h | ⟨m, n, tp, k, h⟩ <;> simp [h, ha]
+
+/-! ### the liveness timer of the play state and the automatic UDP → TCP switch -/
+
+/-- The liveness check does nothing unless the client is playing a standard channel. -/
+theorem liveness_only_while_playing (c : Cfg) (s : St) (got stale : Bool)
+    (h : s.cst ≠ .play ∨ s.stdSet = false) : checkTimeout c s got stale = s := by
+  rcases h with h | h <;> simp [checkTimeout, h]
+
+/-- The automatic switch to TCP is attempted only on the first check of a UDP session, with automatic
+protocol, no back channel, a known DESCRIBE URL, and when not a single UDP packet has arrived; in
+every other case the check leaves the state alone or terminates the client with a timeout error. -/
+theorem switch_only_when_allowed (c : Cfg) (s : St) (got stale : Bool) :
+    checkTimeout c s got stale = s ∨
+    checkTimeout c s got stale = { s with checkInitial := false } ∨
+    checkTimeout c s got stale = runExit s (some .udpTimeout) ∨
+    checkTimeout c s got stale = runExit s (some .tcpTimeout) ∨
+    (checkTimeout c s got stale = switchStart c { s with checkInitial := false } ∧
+      s.cst = .play ∧ (s.tr = some .udp ∨ s.tr = some .mcast) ∧ s.checkInitial = true ∧
+      s.backSet = false ∧ c.proto = none ∧ s.lastDesc = true ∧ got = false) := by
+  simp only [checkTimeout]
+  repeat' split
+  all_goals simp_all
+
+/-- While playing over TCP, silence for ReadTimeout terminates the client with ErrClientTCPTimeout
+(and a later call reports it). -/
+theorem tcp_silence_terminates (c : Cfg) (s : St) (got : Bool) (hc : s.closed = false) (hs : s.stack = [])
+    (hp : s.cst = .play) (hstd : s.stdSet = true) (ht : s.tr = some .tcp) :
+    step c s (.liveness got true) = runExit s (some .tcpTimeout) := by
+  simp [step, hc, hs, checkTimeout, hp, hstd, ht]
+
+example :
+    let s : St := { cst := .play, stdSet := true, tr := some .udp, checkInitial := true, lastDesc := true,
+                    conn := true, reader := true, baseUrl := true, optionsSent := true, chans := [(0, 0)] }
+    waiting (step {} s (.liveness false false)) = true ∧
+    (step {} s (.liveness false false)).out.length = 4 := by decide
 
 end Rtsp.ClientSm.C12
